@@ -195,6 +195,70 @@ func extractC08(c *Ctx) {
 	c.Add("grpcwebWSGuards", "List String", LeanStrList(guards), src, "OnMessage: comparisons on len(data), in source order")
 	c.Add("grpcwebWSSlices", "List String", LeanStrList(offs), src, "OnMessage: payload slice and the closed assignment")
 
+	// WebSocket close: no hard close (gws WriteClose = close frame + immediate TCP close) in the bridges; the close
+	// timeout constant; who calls closeGracefully
+	wc, cg := 0, []string{}
+	for _, wf := range []string{file, "webbridge/websocket.go"} {
+		f := c.File(wf)
+		if f == nil {
+			wc += 1000
+			continue
+		}
+		for _, d := range f.Decls {
+			fd, ok := d.(*ast.FuncDecl)
+			if !ok || fd.Body == nil {
+				continue
+			}
+			ast.Inspect(fd.Body, func(n ast.Node) bool {
+				call, ok := n.(*ast.CallExpr)
+				if !ok {
+					return true
+				}
+				if sel, ok := call.Fun.(*ast.SelectorExpr); ok && sel.Sel.Name == "WriteClose" {
+					wc++
+				}
+				if id, ok := call.Fun.(*ast.Ident); ok && id.Name == "closeGracefully" {
+					cg = append(cg, fd.Name.Name)
+				}
+				return true
+			})
+		}
+	}
+	c.Add("wsWriteCloseCalls", "Nat", fmt.Sprint(wc), "webbridge/grpcweb.go, webbridge/websocket.go", "calls of gws.Conn.WriteClose (hard close) in the WebSocket bridges (1000 = file missing)")
+	c.Add("wsGracefulCloseCallers", "List String", LeanStrList(cg), "webbridge/grpcweb.go, webbridge/websocket.go", "functions calling closeGracefully")
+	toMs := int64(0)
+	tsrc := ""
+	if f := c.File("webbridge/websocket.go"); f != nil {
+		for _, d := range f.Decls {
+			gd, ok := d.(*ast.GenDecl)
+			if !ok || gd.Tok != token.CONST {
+				continue
+			}
+			for _, sp := range gd.Specs {
+				vs := sp.(*ast.ValueSpec)
+				for i, n := range vs.Names {
+					if n.Name != "wsCloseTimeout" || i >= len(vs.Values) {
+						continue
+					}
+					tsrc = c.Pos(vs)
+					if be, ok := vs.Values[i].(*ast.BinaryExpr); ok && be.Op == token.MUL {
+						k, ok1 := intLit(be.X)
+						unit := c.Src(be.Y)
+						if ok1 {
+							switch unit {
+							case "time.Second":
+								toMs = k * 1000
+							case "time.Millisecond":
+								toMs = k
+							}
+						}
+					}
+				}
+			}
+		}
+	}
+	c.Add("wsCloseTimeoutMs", "Nat", fmt.Sprint(toMs), tsrc, "const wsCloseTimeout in milliseconds (0 = not found)")
+
 	// always HTTP 200: no WriteHeader call anywhere in the gRPC-Web HTTP path
 	wh := 0
 	for _, fn := range [][2]string{{"GRPCWebBridge", "ServeHTTP"}, {"gRPCWebStream", "send"}, {"gRPCWebStream", "SetHeader"}, {"", "writeTrailerWithStatus"}} {
